@@ -158,6 +158,17 @@ def rsa_special_cases(r, bits, quick):
     car, _ = primes.carmichael_chernick(half, r)
     with_composite(car, "carmichael")
     with_composite(car, "carmichael", swap=True)
+    # ... and through the (n, e, d) path, where the library finds the factors itself: the other factor is a prime q' with
+    # q'-1 divisible by a higher power of two than c-1 for every prime c | car, so that the square root of unity the recovery
+    # meets first is -1 mod q' and +1 mod car - it splits n into exactly (q', car) and every other test it makes is satisfied
+    _, cf = primes.carmichael_chernick(half, r)
+    car2 = cf[0] * cf[1] * cf[2]
+    v = max(((c - 1) & -(c - 1)).bit_length() for c in cf)
+    if math.gcd(e, car2 - 1) == 1 and v < 12:
+        qq = primes.gen_prime(bits - half, r, lambda c: (c - 1) % (1 << (v + 3)) == 0 and math.gcd(c - 1, e) == 1)
+        dd = pow(e, -1, math.lcm(car2 - 1, qq - 1))
+        out.append(("carmichael-cofactor-factor-recovery", (car2 * qq, e, dd), X, "composite-factor", "composite-factor"))
+        out.append(("carmichael-cofactor-4-tuple-factor-recovery", (car2 * qq, e, dd, qq), X, "composite-factor", "composite-factor"))
     sp, _ = primes.strong_pseudoprime_pq(half, r)
     with_composite(sp, "strong-pseudoprime-p(2p-1)")
     sq, _ = primes.prime_square(half if half % 2 == 0 else half + 1, r)
@@ -196,6 +207,8 @@ def w_con_rsa(spec, ctx, H, entropy):
                           wit=lambda: {"rsa_components": tup, "bits": tup[0].bit_length()})
             if key is not None and lab.endswith("factor-recovery"):
                 ctx.count("factor_recovery_keys_checked")
+            if lab.startswith("carmichael-cofactor"):
+                ctx.count("carmichael_cofactor_recoveries")
         round_ += 1
 
 
@@ -539,6 +552,118 @@ def near_miss_points(c, r):
 
 
 
+def _cubic_root(p, a1, a0, r):
+    """One root of x^3 + a1 x + a0 over GF(p), or None (polynomials are coefficient lists, lowest degree first)."""
+    f = [a0 % p, a1 % p, 0, 1]
+
+    def mulmod(u, v):
+        w = [0] * 5
+        for i, ui in enumerate(u):
+            if ui:
+                for j, vj in enumerate(v):
+                    w[i + j] += ui * vj
+        for k in (4, 3):                      # x^3 = -a1 x - a0
+            t = w[k] % p
+            if t:
+                w[k - 3] -= t * f[0]
+                w[k - 2] -= t * f[1]
+        return [w[0] % p, w[1] % p, w[2] % p]
+
+    def powx(base, e):
+        res, b = [1, 0, 0], base
+        while e:
+            if e & 1:
+                res = mulmod(res, b)
+            b = mulmod(b, b)
+            e >>= 1
+        return res
+
+    def trim(u):
+        u = [t % p for t in u]
+        while u and u[-1] == 0:
+            u.pop()
+        return u
+
+    def gcd(u, v):
+        u, v = trim(u), trim(v)
+        while v:
+            inv = pow(v[-1], -1, p)
+            while len(u) >= len(v):
+                q = u[-1] * inv % p
+                sh = len(u) - len(v)
+                for i, vi in enumerate(v):
+                    u[i + sh] = (u[i + sh] - q * vi) % p
+                u = trim(u)
+            u, v = v, u
+        return u
+
+    def solve_low(g):
+        from ref import primes
+        if len(g) == 2:
+            return (-g[0]) * pow(g[1], -1, p) % p
+        if len(g) == 3:
+            i2 = pow(2 * g[2], -1, p)
+            s = primes.sqrt_mod((g[1] * g[1] - 4 * g[2] * g[0]) % p, p)
+            return None if s is None else (-g[1] + s) * i2 % p
+        return None
+    xp = powx([0, 1, 0], p)
+    g = gcd(f, [xp[0], (xp[1] - 1) % p, xp[2]])
+    if len(g) <= 1:
+        return None
+    if len(g) <= 3:
+        return solve_low(g)
+    for _ in range(20):                       # three roots: split with (x + s)^((p-1)/2) - 1
+        sft = r.randrange(p)
+        h = powx([sft, 1, 0], (p - 1) // 2)
+        g = gcd(f, [(h[0] - 1) % p, h[1], h[2]])
+        if 2 <= len(g) <= 3:
+            return solve_low(g)
+    return None
+
+
+def carry_chain_points(c, r, how_many=6):
+    """Off-curve points for field arithmetic that works on 64-bit words in Montgomery form (R = 2^(64 * words)).  One
+    coordinate v is chosen so that the double-width product V*V of its Montgomery form V = v*R mod p has words that are
+    all ones in the upper half (where the reduction adds into the accumulator: a carry has to ripple through them); the other
+    coordinate is then solved for so that the point satisfies the curve equation EXCEPT FOR one carry lost or invented
+    at one word of that product, i.e. the two sides differ by +-2^(64k) * R^-2.  -> [(label, (x, y))]"""
+    from ref import primes
+    import math as _m
+    p = c.p
+    nw = (p.bit_length() + 63) // 64
+    Rinv = pow(1 << (64 * nw), -1, p)
+    top = ((p * p).bit_length() - 1) // 64
+    ones = (1 << 64) - 1
+    out = []
+    for _ in range(how_many):
+        for _attempt in range(50):
+            T = r.randrange(p * p)
+            words = [w for w in range(nw, top) if r.random() < 0.5] or [r.randrange(nw, top)]
+            for w in words:
+                T |= ones << (64 * w)
+            V = _m.isqrt(T)
+            if 1 < V < p:
+                break
+        else:
+            continue
+        v = V * Rinv % p
+        side = r.choice("xy")
+        for k in range(0, 2 * nw + 1):
+            for sign in (1, -1):
+                delta = sign * (1 << (64 * k)) * Rinv * Rinv % p
+                if side == "y":
+                    # x^3 + a x + b = v^2 + delta
+                    x = _cubic_root(p, c.a, c.b - v * v - delta, r)
+                    if x is not None:
+                        out.append(("y-side", (x, v)))
+                else:
+                    # y^2 = (v^2 + delta) v + a v + b
+                    y = primes.sqrt_mod(((v * v + delta) * v + c.a * v + c.b) % p, p)
+                    if y is not None:
+                        out.append(("x-side", (v, y)))
+    return out
+
+
 def ecc_cases(c, r):
     """(label, kwargs without curve, valid, what, statement class)"""
     from ref import ec
@@ -597,6 +722,9 @@ def ecc_cases(c, r):
         for lab, P in near_miss_points(c, r):
             if not ec.w_on_curve(c, P):
                 out.append(("off-curve/near-miss-" + lab, dict(point_x=P[0], point_y=P[1]), X, "point-off-curve", OC))
+        for lab, P in carry_chain_points(c, r, how_many=6 if c.bits <= 384 else 2):
+            if not ec.w_on_curve(c, P):
+                out.append(("off-curve/lost-carry-" + lab, dict(point_x=P[0], point_y=P[1]), X, "point-off-curve", OC))
         sx, sy = small_x_point(c)
         cands = [("small-x-plus-p", (sx + p, sy)), ("x-plus-p", (x + p, y)), ("y-plus-p", (x, y + p)), ("x-and-y-plus-p", (x + p, y + p))]
         z = ec.w_lift_x(c, 0, 0)
@@ -703,4 +831,6 @@ def w_con_ecc(spec, ctx, H, entropy):
                 kw2 = dict(kw, curve=alias)
                 H.offer("ECC", "construct", "+".join(sorted(kw)), lab, lambda: ECC.construct(**kw2), valid=valid, what=what, stmt=stmt,
                         curve=canon, wit=lambda: {"construct_kwargs": kw2})
+                if lab.startswith("off-curve/lost-carry"):
+                    ctx.count("lost_carry_points:" + canon)
         round_ += 1
